@@ -120,9 +120,20 @@ STRUCTURED_ISAR = [
     '<x xmlns:xi="http://www.w3.org/2001/XInclude"><xi:include href="nope.xml"/></x>', '<x xmlns:xi="http://www.w3.org/2001/XInclude"><xi:include/></x>',
     '<?xml version="1.0" encoding="latin-1"?><x><struct name="\xe9"><member name="a" type="u8"/></struct></x>',
     '<x><struct name="A"><member name="a" type="u8" optional="maybe"/></struct></x>',
+    '<?xml version="1.0" encoding="shift_jis"?><x><struct name="A"><member name="a" type="u8"/></struct></x>',
+    '<?xml version="1.0" encoding="utf-16"?><x/>', '<?xml version="1.0" encoding="nonsense"?><x/>',
+    '<x><struct name="A"><member name="" type="u8"><dimension size="THIS_IS_VARIABLE_SIZE_ARRAY"/></member></struct></x>',
+    '<x><struct name="A"><member name="" type="u8"/></struct></x>', '<x><struct name=""><member name="a" type="u8"/></struct></x>',
+    '<x><struct name="A"><member name="a" type="u8"><dimension variableSizeFieldName="@missing"/></member></struct></x>',
+    '<x><struct name="A"><member name="n" type="float"/><member name="a" type="u8"><dimension variableSizeFieldName="@n"/></member></struct></x>',
+    '<x><struct name="A"><member name="a" type="u8"><dimension variableSizeFieldName="@n"/></member><member name="n" type="u32"/></struct></x>',
+    '<x><enum name="E"><enum-member name="E_a" value="1"/></enum><struct name="A"><member name="n" type="E"/><member name="a" type="u8"><dimension variableSizeFieldName="@n"/></member></struct></x>',
+    '<x><struct name="A"><member name="n" type="u32" optional="true"/><member name="a" type="u8"><dimension variableSizeFieldName="@n"/></member></struct></x>',
+    '<x><union name="U"><member name="a" type="U" discriminatorValue="1"/></union></x>', '<x><typedef name="T" type="u8"/><typedef name="T" type="u16"/></x>',
 ]
 
-PATCHES = ['', '\n', 'A', 'A dynamic', 'A dynamic a', 'A dynamic a b c', 'A greedy', 'A static a', 'A static a x y', 'A insert a b c', 'A insert 1 b',
+PATCHES = ['A remove n', 'A rename n m', 'A type n E', 'A type n float', 'A type a E', 'A insert 0 n u8', 'A dynamic a a', 'A limited a a',
+           'A remove a\nA remove n', 'A static n 2', 'A greedy n', '', '\n', 'A', 'A dynamic', 'A dynamic a', 'A dynamic a b c', 'A greedy', 'A static a', 'A static a x y', 'A insert a b c', 'A insert 1 b',
            'A remove', 'A rename', 'A rename a b c', 'A struct x', 'A struct', 'A type a', 'A nonsense a', 'B dynamic a b', 'A limited a zz', '\xff\xfe', 'A  type   a   u64  ']
 
 
@@ -187,6 +198,7 @@ def run_c13(tier):
             n[0] += 1
             os.makedirs(d)
             for name, text in files.items():
+                os.makedirs(os.path.dirname(os.path.join(d, name)), exist_ok=True)
                 with open(os.path.join(d, name), 'wb') as f:
                     f.write(text if isinstance(text, bytes) else text.encode('utf-8', 'surrogatepass'))
             full = [a.replace('@D', d) for a in args]
@@ -206,6 +218,9 @@ def run_c13(tier):
                 chk.property_violation(casej, {'what': 'prophyc did not terminate within %.0f s' % TIME_BOX})
             elif outcome.startswith('internal:'):
                 chk.property_violation(casej, {'what': 'internal exception %s escaped prophyc.main: %s' % (outcome[9:], msg)})
+            elif outcome not in ('ok', 'ProphycError', 'SystemExit', 'skipped'):
+                # anything else that leaves main() is outside the designed error channel as well (OSError family, UnicodeError, ...)
+                chk.property_violation(casej, {'what': 'exception %s escaped prophyc.main: %s' % (outcome, msg)})
             shutil.rmtree(d, ignore_errors=True)
             return outcome
 
@@ -214,9 +229,14 @@ def run_c13(tier):
             case('structured-prophy', outs + ['--cpp_out', '@D', '--cpp_full_out', '@D', '@D/a.prophy'], {'a.prophy': text}, text[:60])
         for text in STRUCTURED_ISAR:
             case('structured-isar', ['--isar'] + outs + ['--cpp_out', '@D', '@D/a.xml'], {'a.xml': text}, text[:60])
+            case('structured-isar', ['--isar', '--cpp_full_out', '@D', '@D/a.xml'], {'a.xml': text}, text[:60])
         xml_ok = '<x><struct name="A"><member name="n" type="u32"/><member name="a" type="u8"><dimension size="2"/></member></struct></x>'
+        xml_dyn = ('<x><enum name="E"><enum-member name="E_a" value="1"/></enum><struct name="A"><member name="n" type="u32"/>'
+                   '<member name="a" type="u8"><dimension variableSizeFieldName="@n"/></member></struct></x>')
         for p in PATCHES:
             case('patch', ['--isar', '--patch', '@D/p.txt'] + outs + ['@D/a.xml'], {'a.xml': xml_ok, 'p.txt': p}, p)
+            for extra in (['--cpp_out', '@D'], ['--cpp_full_out', '@D']):
+                case('patch', ['--isar', '--patch', '@D/p.txt'] + outs + extra + ['@D/a.xml'], {'a.xml': xml_dyn, 'p.txt': p}, p + ' (bound array)')
         ok_prophy = 'struct A { u8 a; };\n'
         for args, files in [
             ([], {}), (['--python_out', '@D'], {}), (['@D/a.prophy'], {'a.prophy': ok_prophy}), (['--python_out', '@D/nodir', '@D/a.prophy'], {'a.prophy': ok_prophy}),
@@ -230,6 +250,15 @@ def run_c13(tier):
         # cyclic includes
         case('includes', outs + ['@D/a.prophy'], {'a.prophy': '#include "b.prophy"\n', 'b.prophy': '#include "a.prophy"\n'}, 'cycle of two')
         case('includes', outs + ['@D/a.prophy'], {'a.prophy': '#include "a.prophy"\n'}, 'self include')
+        empty_inc = {'a.prophy': '#include "common.prophy"\nstruct A { u8 a; };\n', 'b.prophy': '#include "common.prophy"\nstruct B { u8 b; };\n',
+                     'common.prophy': '// nothing left here\n'}
+        case('includes', outs + ['@D/a.prophy', '@D/common.prophy'], empty_inc, 'empty include that is also an input')
+        case('includes', outs + ['@D/common.prophy', '@D/a.prophy', '@D/b.prophy'], empty_inc, 'empty input included by later inputs')
+        case('includes', outs + ['@D/common.prophy', '@D/./common.prophy'], empty_inc, 'the same empty file twice')
+        case('includes', ['--isar'] + outs + ['@D/e.xml', '@D/e.xml'], {'e.xml': '<dom/>'}, 'the same empty isar file twice')
+        os.makedirs(os.path.join(root, 'dirinc'), exist_ok=True)
+        case('includes', outs + ['-I', '@D', '@D/a.prophy'], {'a.prophy': '#include "sub"\nstruct A { u8 a; };\n', 'sub/keep': ''}, 'include names a directory')
+        case('includes', outs + ['@D/sub'], {'sub/keep': ''}, 'input is a directory')
         # structure-level corruptions: rewired references (self references, cycles) - also against the Lean model of the sort
         reqs, rows = [], []
         for si in range(chk.scale(150, 1500)):
